@@ -50,6 +50,7 @@ class OS:
         self.read_args = []
         self.flags_at_read = []
         self.on_select = None
+        self.discarded = []      # input a TCSAFLUSH threw away
         self.pipes = {}          # write end -> read end
         self.tick = 0.25         # the clock advances by this much at every time.time() call
         self.stack = []          # the interpreter's call stack (set by install)
@@ -96,18 +97,26 @@ class OS:
             raise FoldedRaise(ExcName("error", errno=25), "not a tty")
         return _deep(self.tty[fd])
 
+    def _flush_input(self, fd, when):
+        # TCSAFLUSH: "after all output has been transmitted; all input that has been received but not read is discarded"
+        if when == _termios.TCSAFLUSH and self.data.get(fd):
+            self.discarded.extend(self.data[fd])
+            self.data[fd] = []
+
     def tcsetattr(self, a, k):
         self._call("termios.tcsetattr")
         fd = self.fd_of(a[0])
         attrs = a[2]
+        self._flush_input(fd, a[1])
         if not (isinstance(attrs, list) and len(attrs) == 7 and isinstance(attrs[6], list)):
             raise FoldedRaise("TypeError", "tcsetattr attributes")
         self.tty[fd] = _deep(attrs)
         return None
 
-    def _setmode(self, name, a):
+    def _setmode(self, name, a, k=None):
         self._call(name)
         fd = self.fd_of(a[0])
+        self._flush_input(fd, a[1] if len(a) > 1 else (k or {}).get("when", _termios.TCSAFLUSH))
         old = _deep(self.tty[fd])
         new = _deep(old)
         new[3] &= ~(ECHO | ICANON)
@@ -248,8 +257,8 @@ def install(it, osm, modules=("input", "termhelpers", "window")):
     osm.stack = it.folder.stack
     consts = {k: getattr(_termios, k) for k in dir(_termios) if k.isupper() and isinstance(getattr(_termios, k), int)}
     termios = Record(tcgetattr=N(osm.tcgetattr, "termios.tcgetattr"), tcsetattr=N(osm.tcsetattr, "termios.tcsetattr"), **consts)
-    tty = Record(setcbreak=N(lambda a, k: osm._setmode("tty.setcbreak", a), "tty.setcbreak"),
-                 setraw=N(lambda a, k: osm._setmode("tty.setraw", a), "tty.setraw"),
+    tty = Record(setcbreak=N(lambda a, k: osm._setmode("tty.setcbreak", a, k), "tty.setcbreak"),
+                 setraw=N(lambda a, k: osm._setmode("tty.setraw", a, k), "tty.setraw"),
                  IFLAG=0, OFLAG=1, CFLAG=2, LFLAG=3, ISPEED=4, OSPEED=5, CC=6)
     fcntl = Record(fcntl=N(osm.fcntl, "fcntl.fcntl"), F_GETFL=3, F_SETFL=4)
     os_ = Record(pipe=N(osm.pipe, "os.pipe"), close=N(osm.close, "os.close"), set_blocking=N(osm.set_blocking, "os.set_blocking"),
